@@ -6,7 +6,8 @@ per event, in the same vocabulary as ml/match/driver.ml prints for the model.
 Scenario = {"limit": int, "events": [[op, conn, ...], ...]} with
   ["hello", c]            connect + Hello (conn 0, the controller, is implicit and first);
   ["hello", c, "fd"]      the same, negotiating NEGOTIATE_UNIX_FD during authentication
-  ["own", c, name]        RequestName (name is unowned)
+  ["own", c, name]        RequestName, flags 0 (primary owner, or queued behind the current owner)
+  ["release", c, name]    ReleaseName
   ["add", c, text]        AddMatch
   ["rm", c, text]         RemoveMatch
   ["send", c, type, path, iface, member, dest, args]   args = [["s", str] | ["o", str] | ["x"] | ["h"]]  (["h"] = one unix fd, sent with SCM_RIGHTS)
@@ -94,7 +95,7 @@ def model_lines(sc):
         op = e[0]
         if op == "hello":
             lines.append("hello %d %s%s" % (e[1], hx(":1.%d" % plan[e[1]]), " fd" if len(e) > 2 and e[2] == "fd" else ""))
-        elif op in ("own", "add", "rm"):
+        elif op in ("own", "release", "add", "rm"):
             lines.append("%s %d %s" % (op, e[1], hx(e[2]) or "-"))
         elif op == "send":
             lines.append("send %d %s" % (e[1], msg_desc(e[2:])))
@@ -127,6 +128,7 @@ class Runner:
         self.conns = {}
         self.unique = {}
         self.owned = {}
+        self.queue = {}          # well-known name -> connections in queue order (first = primary owner)
         self.dead = False
 
     # -- helpers -----------------------------------------------------------------
@@ -215,14 +217,32 @@ class Runner:
         return "S " + fmt_conns(self.take(lambda m: self.is_noc(m, conn.unique)))
 
     def ev_own(self, c, name):
+        """RequestName with flags 0: reply code 1 (primary owner), 2 (queued), 4 (already owner)"""
         s = self.call(c, "RequestName", "su", (name, 0))
         if not self.barrier_all():
             return "F"
         rs = self.replies(c, s)
-        if len(rs) != 1 or rs[0].mtype != METHOD_RETURN or rs[0].body != (1,):
+        if len(rs) != 1 or rs[0].mtype != METHOD_RETURN or len(rs[0].body) != 1:
             return "?requestname %r" % (rs,)
-        self.owned[c].append(name)
-        return "S " + fmt_conns(self.take(lambda m: self.is_noc(m, name)))
+        code = rs[0].body[0]
+        q = self.queue.setdefault(name, [])
+        if c not in q:
+            q.append(c)
+        return "O%d %s" % (code, fmt_conns(self.take(lambda m: self.is_noc(m, name) and m.body[1] == "")))
+
+    def ev_release(self, c, name):
+        """ReleaseName: reply code 1 (released), 2 (non-existent), 3 (not owner)"""
+        s = self.call(c, "ReleaseName", "s", (name,))
+        if not self.barrier_all():
+            return "F"
+        rs = self.replies(c, s)
+        if len(rs) != 1 or rs[0].mtype != METHOD_RETURN or len(rs[0].body) != 1:
+            return "?releasename %r" % (rs,)
+        q = self.queue.get(name, [])
+        if c in q:
+            q.remove(c)
+        me = self.unique[c]
+        return "O%d %s" % (rs[0].body[0], fmt_conns(self.take(lambda m: self.is_noc(m, name) and m.body[1] == me)))
 
     def ev_match(self, c, member, text):
         s = self.call(c, member, "s", (text,))
@@ -292,7 +312,11 @@ class Runner:
     def ev_disc(self, c):
         conn = self.conns.pop(c)
         name = self.unique[c]
-        released = list(reversed(self.owned[c])) + [name]
+        # names whose PRIMARY owner leaves are announced; a queued entry just disappears
+        released = [n for n, q in self.queue.items() if q and q[0] == c] + [name]
+        for q in self.queue.values():
+            if c in q:
+                q.remove(c)
         conn.close()
         ctrl = self.conns[0]
         t_end = time.time() + 10
@@ -309,7 +333,7 @@ class Runner:
             return "F"
         parts = []
         for n in released:
-            parts.append(hx(n) + ":" + fmt_conns(self.take(lambda m, n=n: self.is_noc(m, n) and m.body[2] == "")))
+            parts.append(hx(n) + ":" + fmt_conns(self.take(lambda m, n=n: self.is_noc(m, n) and m.body[1] == name)))
         return "G " + ";".join(parts)
 
     def run(self):
@@ -326,6 +350,8 @@ class Runner:
                         r = self.ev_hello(e[1], len(e) > 2 and e[2] == "fd")
                     elif op == "own":
                         r = self.ev_own(e[1], e[2])
+                    elif op == "release":
+                        r = self.ev_release(e[1], e[2])
                     elif op == "add":
                         r = self.ev_match(e[1], "AddMatch", e[2])
                     elif op == "rm":
